@@ -277,8 +277,12 @@ class Contract:
         upd += ['ensures[inv:%s|%s] %s' % (l, t, sub_self(e, 'final(self)')) for l, t, e in conj]
         self.sec['fn update'] = upd + self.sec.get('fn update', [])
         # asserted before every non-silent exit of `update`, so that the trait-level contract follows from the labelled clauses
+        # order: invariant conjuncts first, the refinement E3 last - a failed assert is assumed afterwards, and E3 (state == own_step(..))
+        # implies facts such as the buffer bounds, so asserting it first would mask their failure
         self.tail = [('proof { assert(%s); }' % sub_self(e, 'self'), 'inv:' + l, t) for l, t, e in conj]
-        self.tail.insert(0, ('proof { assert(V::out(self.abs().0).is_some() ==> self.abs().1 =~~= %s_own_step%s(old(self).abs().1, V::out(self.abs().0).unwrap())); }' % (snake, tf), 'E3', e3))
+        e3a = ('proof { assert(V::out(self.abs().0).is_some() ==> self.abs().1 =~~= %s_own_step%s(old(self).abs().1, V::out(self.abs().0).unwrap())); }' % (snake, tf), 'E3', e3)
+        if opts.get('tail') == 'E3first': self.tail.insert(0, e3a)     # views whose invariant proofs need the refinement as a stepping stone
+        else: self.tail.append(e3a)
         # `out` (the value) decides the functional properties; readiness (C08) and ranges (C07) have clauses of their own, so that a
         # change of the value alone is not reported against them
         otags = [t.strip() for t in opts.get('out', '').split(',') if t.strip()]
